@@ -80,7 +80,7 @@ Print Assumptions C12_no_pattern_no_match.
     (any other content is rejected by the compiler). *)
 Theorem C12_collating_single_character :
   forall g d x f rest,
-    (d = 46 \/ d = 61)%N -> x <> RuneError -> (0 < f)%nat ->
+    (d = 46 \/ d = 61)%N -> (0 < f)%nat ->
     citems f g (91 :: 91 :: d :: x :: d :: 93 :: 93 :: rest)%N =
     match citems (f - 1) g rest with
     | COk l => COk ((RClass false [CChar x], 91%N :: txt (emit [x] ++ [93%N])) :: l)
